@@ -409,6 +409,17 @@ def main():
             status, detail, mpath = "not-replayed", "", ""
             if mode == "native":
                 status, detail, mpath = native_replay(pid, run, fn, v, outdir, r["env"], idx)
+                if not status.startswith("reproduced") and run.get("redirect"):
+                    # a native run cannot apply the run's redirects (e.g. the injective stand-in for a hash): a
+                    # counterexample that depends on one is replayed in the engine's concrete mode instead
+                    rr = run_func(binp, pid, tier, run, fn, outdir, fixed=v["model"], tag=".replay%d" % idx)
+                    try:
+                        for vv in rr["res"]["funcs"][0].get("violations") or []:
+                            if vv["label"] == label:
+                                status = "reproduced(engine-concrete; native replay not applicable: depends on a redirected function)"
+                                mpath = os.path.join(outdir, "%s.replay%d.spec.json" % (name, idx))
+                    except Exception:
+                        pass
             else:
                 # engine-concrete replay: same harness with every nondet fixed to the model
                 rr = run_func(binp, pid, tier, run, fn, outdir, fixed=v["model"], tag=".replay%d" % idx)
